@@ -299,6 +299,16 @@ class SymKit(KitBase):
         from .ndarray import NDArr
         return NDArr.fresh(lambda *idx: wrap(cell_fn(*idx)), tuple(wrap(d) for d in shape), "float")
 
+    def setattr(self, obj, name, value):
+        """Assign an attribute of a (lifted) repository object from the contract (construction of a symbolic state)."""
+        self.I.setattr(wrap(obj), name, wrap(value), None)
+
+    def array_cells(self, nested):
+        """An array given cell by cell as nested lists (concrete shape; cells: nan_cell() / reals / numbers)."""
+        def shp(x):
+            return (len(x),) + shp(x[0]) if isinstance(x, (list, tuple)) else ()
+        return self.lib.numpy.from_nested(self.I, [[wrap(c) for c in row] if isinstance(row, (list, tuple)) else wrap(row) for row in nested], "float", shp(nested))
+
     def solve_unique(self, what, cand):
         """Use of the ASSUMED uniqueness clause of numpy.linalg.solve for the LAST system the analysed code solved:
         first the obligation that the candidate (rows x columns of reals) satisfies that very system A @ cand == b
@@ -749,7 +759,10 @@ class ConcKit(KitBase):
     def run_prefix(self, *a, **k):
         raise Skip()       # loop contracts are piecewise executions: no native counterpart (whole function is replayed by bounded checks)
 
-    loop_frame = loop_test = loop_body = run_suffix = local = yielded = seq = seq_slice = seq_at = seq_len = array_view = bool_cell = derived_array = run_prefix
+    loop_frame = loop_test = loop_body = run_suffix = local = yielded = seq = seq_slice = seq_at = seq_len = array_view = run_prefix
+
+    def bool_cell(self, arr, *idx):
+        return bool(arr[tuple(int(i) for i in idx)])
 
     def scalar(self, v):
         import numpy as np
@@ -844,6 +857,13 @@ class ConcKit(KitBase):
 
     def solve_unique(self, what, cand):
         pass
+
+    def array_cells(self, nested):
+        import numpy as np
+        return np.array(nested, dtype=float)
+
+    def setattr(self, obj, name, value):
+        setattr(obj, name, value)
 
     def array_pattern(self, name, pattern):
         import numpy as np
